@@ -167,6 +167,7 @@ RefParse2(b, p0) ==
 RefParse(b) ==
   LET p0 == SkipWS(b, 1) IN
   IF p0 > Len(b) THEN Refuse("empty")
+  ELSE IF Count(SubSeq(b, 1, p0 - 1), 10) >= 8 THEN Unjudged("more than 7 leading blank lines")   \* the library gives up by design
   ELSE IF StartsAt(b, p0, XMLOPEN) THEN RefParse2(b, p0) ELSE RefParse1(b, p0)
 
 (***************************************************************************)
